@@ -1,5 +1,7 @@
 package main
 
+import "strings"
+
 func init() {
 	register(propSpec{
 		ID: "C08",
@@ -56,6 +58,24 @@ func init() {
 			c.guard("SEQ.START", func() { s.ruleStart() })
 			c.guard("SEQ.DELAY", s.ruleDelay)
 			c.guard("RW.NOASYNC", func() { ruleRwNoAsync(c) })
+			// a panicking expression must be evaluated by the step that reaches it: no early evaluation
+			// through Delay elision, no dropped result expression of `return <expr>`
+			r := newRwRT(c)
+			c.guard("OPT.WHITELIST", func() { r.ruleOptWhitelist(s) })
+			c.guard("RW.TMPL.RETURN", r.rulePass0)
+			c.keep(func(o Obligation) bool {
+				switch o.Rule {
+				case "RW.TMPL.HOIST":
+					return false
+				case "RW.TMPL.RETURN":
+					return !strings.HasPrefix(o.Construct, "nested ordinary closure")
+				}
+				return true
+			})
+			c.min("SEQ.CHAIN", 2)
+			c.min("SEQ.TAKE", 2)
+			c.min("OPT.BINDLIT", 1)
+			c.min("RW.TMPL.RETURN", 4)
 		},
 	})
 	register(propSpec{
@@ -68,6 +88,16 @@ func init() {
 			c.guard("SEQ.START", func() { s.ruleStart() })
 			c.guard("SEQ.FOR", s.ruleFor)
 			c.guard("RW.NODECL", func() { ruleRwNoDecl(c) })
+			// of the loop tables only the independence of two runs of one Seq value belongs here
+			c.keep(func(o Obligation) bool {
+				if o.Rule == "SEQ.FOR" {
+					return strings.Contains(o.Construct, "second run")
+				}
+				return o.Rule != "SEQ.ROLE" && o.Rule != "SEQ.LAZY"
+			})
+			c.min("SEQ.STATE", 7)
+			c.min("SEQ.START", 3)
+			c.min("SEQ.FOR", 4)
 		},
 	})
 }
